@@ -293,7 +293,7 @@ class World(object):
         self.cur = [None] * self.naddr    # current connection index per address
         self.reqs = []
         self.calls = []
-        self.reentered = False
+        self.reentered = 0
         self.obs = ObsLog(self.clock)  # THE observation log (ordered, written at event time)
         self.hist = []
         self.step = 0
@@ -493,7 +493,7 @@ class World(object):
         """Re-entrant use of the API: cfg['reenter'] lists 'trigger>action' (e.g. 'ok:pub>pub', 'err:pub>pub',
         'ok:pub>disconnect', 'onPublish>disconnect'); a bare kind k means 'ok:k>k'.  The first matching trigger of a world
         performs its action from inside the callback (once per world)."""
-        if self.reentered:
+        if self.reentered >= self.cfg.get('reenter_max', 1):
             return
         for spec in self.cfg.get('reenter', ()):
             trig, act = spec.split('>') if '>' in spec else ('ok:' + spec, spec)
@@ -505,11 +505,17 @@ class World(object):
                 continue
             if sum(1 for c in self.conns if c.addr == addr) - 1 < minconn:
                 continue
-            self.reentered = True
+            self.reentered += 1
             self.obs.append(('reenter', trigger, act))
             c = self.conn(addr)
             if act == 'pub':
                 self.ev_pub(addr, qos if qos is not None else 1)
+            elif act in ('pub0', 'pub1', 'pub2'):
+                self.ev_pub(addr, int(act[3]))
+            elif act == 'connect':
+                self.ev_connect(addr, True, 0, 4)
+            elif act.startswith('setwin'):
+                self.ev_setwin(addr, int(act[6:]))
             elif act == 'sub':
                 self.ev_sub(addr, 'str')
             elif act == 'unsub':
